@@ -359,6 +359,58 @@ impl<S: CredentialStore<PasskeyItem = Passkey> + Send + Sync> CredentialStore fo
     }
 }
 
+/// Fails every call of one operation with a status *value* (not a byte: `Ctap1(Success)` and
+/// `Ctap2(Ok)` share byte 0x00, and only the latter can be built from a byte).
+pub struct FailValue<S> {
+    pub inner: S,
+    /// "find" | "save" | "update"
+    pub op: &'static str,
+    pub status: u8,
+}
+pub const STATUS_VALUES: usize = 7;
+pub fn status_value(k: u8) -> StatusCode {
+    use passkey_types::ctap2::{Ctap2Error, U2FError};
+    match k {
+        0 => StatusCode::Ctap1(U2FError::Success),
+        1 => StatusCode::Ctap1(U2FError::Other),
+        2 => StatusCode::Ctap1(U2FError::InvalidParameter),
+        3 => StatusCode::from(0x00),
+        4 => Ctap2Error::NoCredentials.into(),
+        5 => Ctap2Error::KeyStoreFull.into(),
+        _ => StatusCode::from(0xF3),
+    }
+}
+#[async_trait::async_trait]
+impl<S: CredentialStore<PasskeyItem = Passkey> + Send + Sync> CredentialStore for FailValue<S> {
+    type PasskeyItem = Passkey;
+    async fn find_credentials(&self, ids: Option<&[PublicKeyCredentialDescriptor]>, rp_id: &str) -> Result<Vec<Passkey>, StatusCode> {
+        if self.op == "find" {
+            return Err(status_value(self.status));
+        }
+        self.inner.find_credentials(ids, rp_id).await
+    }
+    async fn save_credential(&mut self, cred: Passkey, user: PublicKeyCredentialUserEntity, rp: PublicKeyCredentialRpEntity, options: Options) -> Result<(), StatusCode> {
+        if self.op == "save" {
+            return Err(status_value(self.status));
+        }
+        self.inner.save_credential(cred, user, rp, options).await
+    }
+    async fn update_credential(&mut self, cred: Passkey) -> Result<(), StatusCode> {
+        if self.op == "update" {
+            return Err(status_value(self.status));
+        }
+        self.inner.update_credential(cred).await
+    }
+    async fn get_info(&self) -> StoreInfo {
+        self.inner.get_info().await
+    }
+}
+impl<S: Inspect> Inspect for FailValue<S> {
+    fn recs(&self) -> Vec<Rec> {
+        self.inner.recs()
+    }
+}
+
 /// Suspends `before` times before and `after` times after each call of the inner store.
 pub struct Yielding<S> {
     pub inner: S,
@@ -631,6 +683,34 @@ pub fn ga_request(rp: &str, allow: Option<Vec<Vec<u8>>>, rk: bool, up: bool, uv:
         pin_auth: pin.then(|| vec![1u8; 16].into()),
         pin_protocol: pin.then_some(1),
     }
+}
+/// The same request as it arrives over the wire: serialised with ciborium, re-shaped as a generic
+/// CBOR value, decoded by the library.  `shape` 1 = as serialised; 2 = every option that has its
+/// specification default (up true, rk false, uv false) removed from the options map; 3 = as 2 and
+/// an options map that became empty is dropped altogether.  All three denote the same request.
+pub fn rewire<T: serde::Serialize + serde::de::DeserializeOwned>(req: &T, options_key: i128, shape: u8) -> Result<T, String> {
+    use ciborium::value::Value as Cbor;
+    let mut bytes = vec![];
+    ciborium::ser::into_writer(req, &mut bytes).map_err(|e| format!("harness: request does not serialise: {e}"))?;
+    let v: Cbor = ciborium::de::from_reader(bytes.as_slice()).map_err(|e| format!("harness: serialised request is not CBOR: {e}"))?;
+    let Cbor::Map(mut m) = v else { return Err("harness: serialised request is not a map".into()) };
+    if shape >= 2 {
+        let mut drop_entry = false;
+        for (k, val) in m.iter_mut() {
+            if matches!(k, Cbor::Integer(i) if i128::from(*i) == options_key) {
+                if let Cbor::Map(opts) = val {
+                    opts.retain(|(name, b)| !matches!((name, b), (Cbor::Text(n), Cbor::Bool(x)) if (n == "up" && *x) || (n == "rk" && !*x) || (n == "uv" && !*x)));
+                    drop_entry = shape == 3 && opts.is_empty();
+                }
+            }
+        }
+        if drop_entry {
+            m.retain(|(k, _)| !matches!(k, Cbor::Integer(i) if i128::from(*i) == options_key));
+        }
+    }
+    let mut out = vec![];
+    ciborium::ser::into_writer(&Cbor::Map(m), &mut out).map_err(|e| format!("harness: {e}"))?;
+    ciborium::de::from_reader(out.as_slice()).map_err(|e| format!("the library does not decode its own request encoding (shape {shape}): {e}"))
 }
 pub fn hex(b: &[u8]) -> String {
     b.iter().map(|x| format!("{x:02x}")).collect()
